@@ -3,4 +3,5 @@ package checks
 
 import (
 	_ "verif/checks/c01"
+	_ "verif/checks/c02"
 )
